@@ -14,6 +14,12 @@ from pyvc import builtins as BI
 
 DESC = Ref('Descriptor')
 
+# BufrMessage proxies: property `name` reads / writes the attribute `_name` (bufr.py, checked by the ground obligation
+# `bufr.BufrMessage#proxies`)
+MESSAGE_PROXIES = ['length', 'edition', 'master_table_number', 'originating_centre', 'originating_subcentre', 'master_table_version',
+                   'local_table_version', 'year', 'month', 'day', 'hour', 'minute', 'second', 'is_section2_presents', 'data_category',
+                   'n_subsets', 'is_observation', 'is_compressed', 'unexpanded_descriptors', 'template_data']
+
 CLASSES = {
     # ---- bitops ---------------------------------------------------------------------------
     'BitReader': dict(bases=[], module='pybufrkit.bitops', fields={}),
@@ -38,12 +44,11 @@ CLASSES = {
                                      'parent': Ref('BufrSection'), 'value': VAL}),
     'BufrSection': dict(bases=[], module='pybufrkit.bufr',
                         fields={'_params': ListT(Ref('SectionParameter')), 'index': INT, 'description': STR,
-                                'optional': BOOL, 'end_of_message': BOOL}, nonnull=['_params']),
+                                'optional': BOOL, 'end_of_message': BOOL, 'bitpos_start': INT}, nonnull=['_params']),
     'BufrMessage': dict(bases=[], module='pybufrkit.bufr',
-                        fields={'filename': STR, 'sections': ListT(Ref('BufrSection')), 'serialized_bytes': VAL,
-                                'table_group_key': VAL, '_is_compressed': Ref('SectionParameter'), '_n_subsets': Ref('SectionParameter'),
-                                '_edition': Ref('SectionParameter'), '_length': Ref('SectionParameter'),
-                                '_template_data': Ref('SectionParameter'), '_unexpanded_descriptors': Ref('SectionParameter')},
+                        fields=dict({'filename': STR, 'sections': ListT(Ref('BufrSection')), 'serialized_bytes': VAL,
+                                     'table_group_key': VAL},
+                                    **{'_' + n: Ref('SectionParameter') for n in MESSAGE_PROXIES}),
                         nonnull=['sections']),
     'BufrTableGroup': dict(bases=[], fields={}),
     'CompiledTemplate': dict(bases=[], fields={}),
@@ -205,7 +210,58 @@ def section_len(eng, ctx, st, sec):
     return SV(INT, n)
 
 
-CLASSES['BufrSection']['hooks'] = {'iter': section_iter, 'len': section_len}
+_secidx = z3.Function('section_param_index', z3.ArraySort(z3.IntSort(), z3.IntSort()), z3.IntSort(),
+                       z3.ArraySort(z3.IntSort(), z3.StringSort()), z3.StringSort(), z3.IntSort())
+
+
+def section_lookup(eng, st, sec, name_z):
+    """-> (has, parameter SV): the namespace of a section is keyed by parameter name (an OrderedDict): `has` iff some parameter
+    carries the name; the parameter found is the first one that does (with pairwise distinct names: the one)"""
+    lst = SV(ListT(Ref('SectionParameter')), z3.Select(st.hget(E.fkey('_params', ListT(Ref('SectionParameter')))), sec.z))
+    n = eng.list_len(st, lst)
+    arr = eng.list_arr(st, lst)
+    names = st.hget(E.fkey('name', STR))
+    idx = _secidx(arr, n, names, name_z)
+    j = fresh('j', z3.IntSort())
+    has = z3.Exists([j], z3.And(0 <= j, j < n, z3.Select(names, z3.Select(arr, j)) == name_z))
+    hb = fresh('has', z3.BoolSort())
+    st.assume(hb == has)
+    k = fresh('k', z3.IntSort())
+    st.assume(z3.Implies(hb, z3.And(0 <= idx, idx < n, z3.Select(names, z3.Select(arr, idx)) == name_z,
+                                    z3.ForAll([k], z3.Implies(z3.And(0 <= k, k < idx), z3.Select(names, z3.Select(arr, k)) != name_z)))))
+    p = z3.Select(arr, idx)
+    st.assume(z3.Implies(hb, z3.And(p > 0, p < st.alloc + st.nalloc)))
+    return hb, SV(Ref('SectionParameter'), p)
+
+
+def section_getattr(eng, ctx, st, sec, field):
+    has, p = section_lookup(eng, st, sec, S(field))
+    eng.safe(ctx, st, has, 'KeyError', 'section has no parameter %s' % field)
+    eng.type_fact(st, p)
+    return p
+
+
+def section_contains(eng, ctx, st, sec, item):
+    has, _ = section_lookup(eng, st, sec, item.z)
+    return has
+
+
+CLASSES['BufrSection']['hooks'] = {'iter': section_iter, 'len': section_len, 'getattr': section_getattr, 'contains': section_contains}
+
+
+def message_setattr_dyn(eng, ctx, st, msg, name, val):
+    """setattr(bufr_message, parameter.name, parameter): the proxy property of that name stores into `_name`; any other name
+    creates a plain attribute that no verified code reads"""
+    v = eng.coerce(val, Ref('SectionParameter'))
+    for n in MESSAGE_PROXIES:
+        k = E.fkey('_' + n, Ref('SectionParameter'))
+        old = z3.Select(st.hget(k), msg.z)
+        st.hset(k, z3.Store(st.hget(k), msg.z, z3.If(name.z == S(n), v.z, old)))
+
+
+CLASSES['BufrMessage']['hooks'] = {'setattr_dyn': message_setattr_dyn}
+# ghost: how many times the template data of this message has been entered (Decoder / Encoder.process_template_data)
+CLASSES['BufrMessage']['ghosts'] = {'td_entered': z3.IntSort()}
 
 
 # ---------------------------------------------------------------------------------------------
@@ -409,6 +465,32 @@ OPTS = {'name_hook': name_hook, 'modattr_hook': modattr_hook,
         'val_attr_class': {'decoded_values_all_subsets': 'TemplateData', 'decoded_descriptors_all_subsets': 'TemplateData'}}
 
 
+def check_proxies(db):
+    """BufrMessage.<name> is a property that returns self._<name> and whose setter stores into self._<name>, for exactly the
+    names in MESSAGE_PROXIES (+ the read-only `timestamp`)"""
+    m = db.module('pybufrkit.bufr')
+    bases, node = m.classes['BufrMessage']
+    getters, setters = {}, {}
+    for sub in node.body:
+        if isinstance(sub, ast.FunctionDef):
+            decos = [ast.unparse(d) for d in sub.decorator_list]
+            body = [b for b in sub.body if not (isinstance(b, ast.Expr) and isinstance(b.value, ast.Constant))]
+            if 'property' in decos and len(body) == 1 and isinstance(body[0], ast.Return):
+                getters[sub.name] = ast.unparse(body[0].value)
+            elif any(d.endswith('.setter') for d in decos) and len(body) == 1 and isinstance(body[0], ast.Assign):
+                setters[sub.name] = ast.unparse(body[0])
+    bad = []
+    for n in MESSAGE_PROXIES:
+        if getters.get(n) != 'self._' + n:
+            bad.append('getter of %s is %r' % (n, getters.get(n)))
+        if setters.get(n) != 'self._%s = new_value' % n:
+            bad.append('setter of %s is %r' % (n, setters.get(n)))
+    extra = sorted(set(setters) - set(MESSAGE_PROXIES))
+    if extra:
+        bad.append('unlisted proxies: %s' % extra)
+    return ('bufr.BufrMessage#proxies', not bad, '; '.join(bad) or '%d proxy properties read / write the attribute _<name>' % len(MESSAGE_PROXIES))
+
+
 def ground_checks(db):
     """Concrete facts the models rely on, re-established from the source on every run.
     -> [(id, ok, detail)]"""
@@ -428,6 +510,13 @@ def ground_checks(db):
         out.append(('constants#format_constants', ok, 'NBITS_PER_BYTE == 8, NBITS_FOR_NBITS_DIFF == 6, signatures'))
     except Exception as ex:
         out.append(('constants.NUMERIC_MISSING_VALUES#table', False, 'cannot evaluate constants.py: %r' % (ex,)))
+    try:
+        from contracts.bufr import check_layouts
+        ok, detail = check_layouts(db.repo)
+        out.append(('definitions#layout', ok, detail))
+    except Exception as ex:
+        out.append(('definitions#layout', False, 'cannot evaluate the definition files: %r' % (ex,)))
+    out.append(check_proxies(db))
     for p in check_hierarchy(db, CLASSES):
         out.append(('classes#hierarchy', False, p))
     if not any(i == 'classes#hierarchy' for i, _, _ in out):
